@@ -118,7 +118,9 @@ func c12Spec() *histSpec {
 				out = append(out, zn.Iter{Vars: []string{"甲K", "甲V"}, Target: x, Body: []zn.Stmt{show(zn.Var{Name: "甲K"}, zn.Var{Name: "甲V"})}})
 			} else {
 				out = append(out, show(c12Str(n), x, mem(x, "长度"), mem(x, "所有索引"), mem(x, "所有值"),
-					mcall(x, "读取", c12Str("乙")), mcall(x, "读取", c12Str("无")), zn.Call{Name: "生成JSON", Args: []zn.Expr{x}}))
+					mcall(x, "读取", c12Str("乙")), mcall(x, "读取", c12Str("无")), zn.Call{Name: "生成JSON", Args: []zn.Expr{x}},
+					// the same dictionary as a direct item of a list and under a key: its order is its own everywhere
+					zn.Call{Name: "生成JSON", Args: []zn.Expr{zn.Dict{Pairs: []zn.DictPair{{Key: "列", Val: zn.List{Items: []zn.Expr{x, zn.List{Items: []zn.Expr{x}}}}}, {Key: "键", Val: x}}}}}))
 				out = append(out, zn.Iter{Vars: []string{"甲K", "甲V"}, Target: x, Body: []zn.Stmt{show(zn.Var{Name: "甲K"}, zn.Var{Name: "甲V"})}})
 			}
 		}
@@ -172,6 +174,8 @@ func c12Spec() *histSpec {
 			add("令M = L", []string{"M"}, decl("M", L))
 		} else {
 			add("M = L", nil, es(zn.Assign{Target: zn.Var{Name: "M"}, Val: L}))
+			// assignment from a call that returns its receiver: M still gets a copy
+			add("M = 以L（后增：v）", nil, es(zn.Assign{Target: zn.Var{Name: "M"}, Val: mcall(L, "后增", v)}))
 			add("L = M", nil, es(zn.Assign{Target: L, Val: zn.Var{Name: "M"}}))
 			add("以M（后增：v）", nil, es(mcall(zn.Var{Name: "M"}, "后增", v)))
 		}
@@ -200,7 +204,7 @@ func init() {
 	mc.Register(&mc.Check{
 		ID:    "C12",
 		Level: "model_checking",
-		Rule: "E2: breadth-first search over operation histories on a list L and a dictionary D (plus one copy of each) from 3 initial states (non-empty, empty, literal with duplicate keys); list operations: guarded write at positions {0,1,2,len,len+1}, 前增 后增 左移 右移 交换 (in and out of range) 合并 (also with the receiver itself among the arguments), setters 首项 末项, copies; dictionary operations over keys 乙 甲 丙 (deliberately unsorted): #k write, 写入 移除 读取, numeric key, copies; values cycle through 0..2 so the space closes under the history bound. Every history of >= 3 operations is also run with the battery only at its end (an observation may itself refresh hidden state). After EVERY operation the full observation battery runs on the real interpreter (fresh run of the whole history) and the reference (slice / key list + map): structural value, display text, length, 首项 末项 逆序 逆序∘逆序 包含, guarded reads at 0,1,2,len,len+1 (out of range => error and unchanged), iteration order with indices, 所有索引 所有值, keyed reads of present and absent keys, generated JSON.",
+		Rule: "E2: breadth-first search over operation histories on a list L and a dictionary D (plus one copy of each) from 3 initial states (non-empty, empty, literal with duplicate keys); list operations: guarded write at positions {0,1,2,len,len+1}, 前增 后增 左移 右移 交换 (in and out of range) 合并 (also with the receiver itself among the arguments), setters 首项 末项, copies; dictionary operations over keys 乙 甲 丙 (deliberately unsorted): #k write, 写入 移除 读取, numeric key, copies; values cycle through 0..2 so the space closes under the history bound. Every history of >= 3 operations is also run with the battery only at its end (an observation may itself refresh hidden state). After EVERY operation the full observation battery runs on the real interpreter (fresh run of the whole history) and the reference (slice / key list + map): structural value, display text, length, 首项 末项 逆序 逆序∘逆序 包含, guarded reads at 0,1,2,len,len+1 (out of range => error and unchanged), iteration order with indices, 所有索引 所有值, keyed reads of present and absent keys, generated JSON (of the dictionary itself and of it as an item of a list, of a list in a list and under a key).",
 		Assumptions: []string{
 			"fractional indices and the numeric convention of 寻找 / 新增 are not asserted (statement leaves them open)",
 			"JSON text of the reference uses Go's shortest float formatting and member order = stored key order",
